@@ -31,7 +31,8 @@ func fixedCacheCases() []*CacheCase {
 }
 
 var fixedPMNames = []string{"tx-batch-of-8", "orphans-5-9-12-then-7", "all-confirms-before-blocks-reverse", "every-block-twice-in-order", "two-orphan-islands-filled-downwards", "remotes-join-and-leave-while-syncing",
-	"confirm-arrives-while-its-block-is-inserted-3ms", "confirm-arrives-while-its-block-is-inserted-8ms", "confirm-arrives-while-its-block-is-inserted-20ms"}
+	"confirm-arrives-while-its-block-is-inserted-3ms", "confirm-arrives-while-its-block-is-inserted-8ms", "confirm-arrives-while-its-block-is-inserted-20ms",
+	"copy-of-block-being-drained-heads-a-message-0ms", "copy-of-block-being-drained-heads-a-message-2ms"}
 
 func seq(lo, hi int) []int {
 	var out []int
@@ -59,6 +60,8 @@ func fixedPMCase(k, try int, scratch string) (*PMCase, error) {
 		nDep, n = 3, 10
 	case 6, 7, 8:
 		nDep, n = 5, 6
+	case 9, 10:
+		nDep, n = 3, 7
 	}
 	wcfg := fx.WorldCfg{Deputies: nDep, Users: 6, SlotMs: 10000}
 	w := fx.NewWorld(wcfg)
@@ -67,6 +70,9 @@ func fixedPMCase(k, try int, scratch string) (*PMCase, error) {
 	for i := 0; i < n; i++ {
 		sp.Dt = append(sp.Dt, []int{5, 3, 11, 2, 25, 7}[i%6])
 		sp.TxsPer = append(sp.TxsPer, (i+try)%3)
+	}
+	if k == 9 || k == 10 {
+		sp.TxsPer[4] = 40 // block 5 takes a while to verify
 	}
 	blocks, sigs, err := mineSegment(w, fx.PathOf(scratch, fmt.Sprintf("mine-fixed-%d", k)), sp)
 	if err != nil {
@@ -216,6 +222,23 @@ func fixedPMCase(k, try int, scratch string) (*PMCase, error) {
 			}
 		}
 		cs.Steps = append(cs.Steps, blk(0, n), Step{Kind: "pause", Ms: []int{3, 8, 20}[k-6]}, Step{Kind: "confirm", Peer: 1, Block: n - 1, Sig: 2})
+	case 9, 10:
+		// Block 5 waits in the cache; once its parent is in the chain the next drain inserts it in a
+		// goroutine of its own. Right behind that drain a BlocksMsg brings another copy of block 5
+		// followed by the top block 7 (whose parent 6 is still missing, so it has to be kept).
+		cs.Peers = []PeerSpec{{Deputy: 0}, {Deputy: -1}}
+		cs.DeferServe = true
+		for i := 0; i < n; i++ {
+			cs.Twin = append(cs.Twin, all(i))
+		}
+		cs.Steps = append(cs.Steps, blk(0, 1, 2, 3), blk(1, 5), Step{Kind: "tick"}, blk(0, 4), Step{Kind: "tick"})
+		if k == 10 {
+			cs.Steps = append(cs.Steps, Step{Kind: "pause", Ms: 2})
+		}
+		cs.Steps = append(cs.Steps, blk(1, 5, 7), Step{Kind: "tick"}, blk(0, 6))
+		for h := 1; h <= n; h++ {
+			cs.Steps = append(cs.Steps, confirmsOf(h%2, h)...)
+		}
 	}
 	return cs, nil
 }
